@@ -394,13 +394,94 @@ func matchBits(c *imap.SearchCriteria) []uint64 {
 	return b
 }
 
+// critDump is a faithful serialisation of every field refmodel.Match reads (nothing is
+// normalised): two criteria with the same dump are the same value as far as Match can tell, so
+// their match sets may be shared. Used only to avoid recomputing match sets.
+func critDump(sb *strings.Builder, c *imap.SearchCriteria) {
+	for _, s := range c.SeqNum {
+		fmt.Fprintf(sb, "q%v;", []imap.SeqRange(s))
+	}
+	for _, s := range c.UID {
+		if imap.IsSearchRes(s) {
+			sb.WriteString("u$;")
+		} else {
+			fmt.Fprintf(sb, "u%v;", []imap.UIDRange(s))
+		}
+	}
+	tm := func(k string, t time.Time) {
+		if !t.IsZero() {
+			sb.WriteString(k + t.Format(time.RFC3339Nano) + ";")
+		}
+	}
+	tm("S", c.Since)
+	tm("B", c.Before)
+	tm("s", c.SentSince)
+	tm("b", c.SentBefore)
+	for _, h := range c.Header {
+		sb.WriteString("h" + vk.Q(h.Key) + vk.Q(h.Value) + ";")
+	}
+	for _, x := range c.Body {
+		sb.WriteString("y" + vk.Q(x) + ";")
+	}
+	for _, x := range c.Text {
+		sb.WriteString("t" + vk.Q(x) + ";")
+	}
+	for _, f := range c.Flag {
+		sb.WriteString("f" + vk.Q(string(f)) + ";")
+	}
+	for _, f := range c.NotFlag {
+		sb.WriteString("F" + vk.Q(string(f)) + ";")
+	}
+	fmt.Fprintf(sb, "L%d;M%d;", c.Larger, c.Smaller)
+	if c.ModSeq != nil {
+		fmt.Fprintf(sb, "m%d;", c.ModSeq.ModSeq)
+	}
+	for i := range c.Not {
+		sb.WriteString("N{")
+		critDump(sb, &c.Not[i])
+		sb.WriteString("}")
+	}
+	for i := range c.Or {
+		sb.WriteString("O{")
+		critDump(sb, &c.Or[i][0])
+		sb.WriteString("|")
+		critDump(sb, &c.Or[i][1])
+		sb.WriteString("}")
+	}
+}
+
+// evalCtx memoises match sets for the cases one worker runs back to back (the same criteria are
+// issued once per configuration).
+type evalCtx struct {
+	bits map[string][]uint64
+}
+
+func (ctx *evalCtx) matchBits(c *imap.SearchCriteria) []uint64 {
+	if ctx == nil {
+		atomic.AddInt64(&cDiffSweeps, 1)
+		return matchBits(c)
+	}
+	var sb strings.Builder
+	critDump(&sb, c)
+	k := sb.String()
+	if b, ok := ctx.bits[k]; ok {
+		return b
+	}
+	atomic.AddInt64(&cDiffSweeps, 1)
+	b := matchBits(c)
+	ctx.bits[k] = b
+	return b
+}
+
+var cDiffSweeps int64
+
 // critEq decides predicate equality: differentially with the reference matcher over the message
 // universe (the recorded criteria must match exactly the messages the issued criteria match),
 // and structurally (normal forms) so that strings the universe cannot distinguish are still
 // compared byte for byte.
-func critEq(issued, got *imap.SearchCriteria) (what, msg string) {
+func critEq(issued, got *imap.SearchCriteria, ctx *evalCtx) (what, msg string) {
 	atomic.AddInt64(&cDiffEvals, 1)
-	a, b := matchBits(issued), matchBits(got)
+	a, b := ctx.matchBits(issued), ctx.matchBits(got)
 	for i := range a {
 		if a[i] != b[i] {
 			d := a[i] ^ b[i]
@@ -444,10 +525,10 @@ func searchOptsEq(issued, got imap.SearchOptions) (what, msg string) {
 		{"all", want.ReturnAll, got.ReturnAll},
 	} {
 		if b.want && !b.is {
-			return "return-" + b.name + "-dropped", fmt.Sprintf("return option %s requested but the backend got %+v", strings.ToUpper(b.name), got)
+			return "return-" + b.name + "-dropped", fmt.Sprintf("return option %s requested (issued %s) but the backend got %s", strings.ToUpper(b.name), searchOptStr(issued), searchOptStr(got))
 		}
 		if !b.want && b.is {
-			return "return-" + b.name + "-added", fmt.Sprintf("return option %s not requested (issued %+v) but the backend got %+v", strings.ToUpper(b.name), issued, got)
+			return "return-" + b.name + "-added", fmt.Sprintf("return option %s not requested (issued %s) but the backend got %s", strings.ToUpper(b.name), searchOptStr(issued), searchOptStr(got))
 		}
 	}
 	return "", ""
@@ -476,6 +557,8 @@ func renderArg(a interface{}) string {
 		return "[" + strings.Join(fetchItems(&v, false), " ") + "]"
 	case imap.SearchCriteria:
 		return "{" + critNorm(&v) + "}"
+	case imap.SearchOptions:
+		return searchOptStr(v)
 	case imap.StoreFlags:
 		return fmt.Sprintf("{op:%d silent:%v flags:%q}", v.Op, v.Silent, v.Flags)
 	case imap.AppendOptions:
@@ -488,6 +571,21 @@ func renderArg(a interface{}) string {
 		return "nil"
 	}
 	return fmt.Sprintf("%+v", a)
+}
+
+func searchOptStr(o imap.SearchOptions) string {
+	var l []string
+	add := func(b bool, n string) {
+		if b {
+			l = append(l, n)
+		}
+	}
+	add(o.ReturnMin, "MIN")
+	add(o.ReturnMax, "MAX")
+	add(o.ReturnAll, "ALL")
+	add(o.ReturnCount, "COUNT")
+	add(o.ReturnSave, "SAVE")
+	return "(" + strings.Join(l, " ") + ")"
 }
 
 func timeStr(t time.Time) string {
